@@ -82,6 +82,26 @@ def contracts(w):
     return C
 
 
+class UseExprTr(ExprTr):
+    """size expressions of the use translator: a call of a shrinker (wwWordSize(a, n), memNonZeroSize(buf, count),
+    wwOctetSize) inside an expression is a fresh variable bounded by its size argument"""
+
+    def __init__(self, tree, file, resolve, owner):
+        ExprTr.__init__(self, tree, file, resolve)
+        self.owner = owner
+
+    def call(self, n):
+        callee = strip(n["inner"][0])
+        nm = callee.get("referencedDecl", {}).get("name") if callee["kind"] == "DeclRefExpr" else None
+        if nm in SHRINKERS:
+            args = n["inner"][1:]
+            b = fold(self.expr(args[SHRINKERS[nm]]))
+            if nm == "wwOctetSize":
+                b = fold(("bin", "*", b, self.owner.sz("word")))
+            return self.owner.new_var(nm + "_r", b)
+        return ExprTr.call(self, n)
+
+
 class UseFn:
     def __init__(self, tree, fn, purefns):
         self.tree, self.fn, self.pure = tree, fn, purefns
@@ -105,7 +125,7 @@ class UseFn:
         if "stack" in self.ptrparams:
             self.ptr["stack"] = ("stack", lit(0))
             self.bases["stack"] = None
-        self.tr = ExprTr(tree, fn.file, self.resolve)
+        self.tr = UseExprTr(tree, fn.file, self.resolve, self)
         self.cond_depth = 0
         self.loop_depth = 0
         self.contracts = contracts(word_size(tree))
@@ -327,7 +347,12 @@ class UseFn:
                 if nm in self.ptr:
                     raise Unhandled("carved pointer %s modified in place" % nm)
                 if nm in self.sizes or nm in self.intparams:
-                    self.sizes[nm] = None
+                    cur = self.sizes.get(nm, ("var", nm) if nm in self.intparams else None)
+                    if k == "UnaryOperator" and n.get("opcode") == "--" and cur is not None and not self.loop_depth:
+                        # (possibly conditional) decrement: the value does not grow
+                        self.sizes[nm] = self.new_var(nm, cur)
+                    else:
+                        self.sizes[nm] = None
             for c in n["inner"][1:]:
                 self.visit(c)
             return
@@ -974,6 +999,24 @@ def thm_name(key):
 
 
 NPARTS = 8
+
+
+def hints(k, w):
+    """hand-written proof hints (instances of the monotonicity lemmas of Bee2V/C07/Mono.lean) for obligations
+    whose callee sizes are run-time normalised; w = sizeof(word).  A hint that no longer fits the regenerated
+    statement makes the theorem fail (fail-closed)."""
+    W = str(w)
+    H = {
+        "zzPowerMod": [
+            "have hk := zmCreate_keep_mono _ _ h_0",
+            "have hd := zmCreate_deep_mono _ _ h_0",
+            "have hq := qrPower_deep_mono (((no' + %s) - 1) / %s) n m r_deep (zmCreate_deep (n * %s)) (by omega) (by omega)" % (W, W, W)],
+        "priIsSGPrime": [
+            "have hd := zmCreate_deep_mono _ _ h_0",
+            "have hq := qrPower_deep_mono (((no' + %s) - 1) / %s) (n + 1) n qr_deep (zmCreate_deep ((n + 1) * %s)) (by omega) (by omega)" % (W, W, W)],
+    }
+    return H.get(k, [])
+
 # obligations whose arithmetic is large (many-way max on both sides): bigger heartbeat budget; they are
 # spread over different part files so that lake checks them in parallel
 HEAVY = ["bign96ParamsVal", "bignParamsVal", "bignIdSign2", "bignSign2", "pfokParamsVal", "g12sEcCreate", "bignIdVerify", "bignKeyWrap"]
@@ -987,7 +1030,7 @@ def gen_lean_parts(ob, ns, skip=()):
            "   For every function that carves a scratch stack or a blob: offset of every call that\n"
            "   receives the rest of the area + the callee's DECLARED depth <= the declared depth;\n"
            "   for object constructors additionally their post-condition (goals `post`). -/\n"
-           "import Bee2V.Gen.C07Deep%s\nimport Bee2V.C07.Tactic\n\n"
+           "import Bee2V.Gen.C07Deep%s\nimport Bee2V.C07.Mono\n\n"
            "namespace Bee2V.Gen.C07.%s.Use\nopen Bee2V.Gen.C07.%s\n" % (ns, NPARTS, ns, ns, ns))
     parts = [[] for _ in range(NPARTS)]
     names, opened = [], []
@@ -1014,12 +1057,13 @@ def gen_lean_parts(ob, ns, skip=()):
         opt = "set_option maxHeartbeats 1600000 in\n" if k in heavy else ""
         # users of a constructor's post-condition: the constructors' size functions must stay atoms,
         # so the "unfold only the declared depth" attempt is skipped (it fails slowly on these goals)
-        if any(c in OPAQUE for _, b in r["hyps"] for c in calls_of(b)):
+        hint = hints(k, word_size(ob.tree))
+        if any(c in OPAQUE for _, b in r["hyps"] for c in calls_of(b)) and not hint:
             topl = []
             if k not in heavy:
                 opt = "set_option maxHeartbeats 800000 in\n"
-        text = "%s%s\ntheorem %s %s %s :\n    %s := by\n  c07_use [%s] [%s] [%s]\n" % (
-            opt, doc, thm_name(k), vs, hy, stmt, ", ".join(topl), ", ".join(midl), ", ".join(alll))
+        text = "%s%s\ntheorem %s %s %s :\n    %s := by\n%s  c07_use [%s] [%s] [%s]\n" % (
+            opt, doc, thm_name(k), vs, hy, stmt, "".join("  %s\n" % h for h in hint), ", ".join(topl), ", ".join(midl), ", ".join(alll))
         if k in skip:
             parts[idx % NPARTS].append("/- OPEN (not a theorem): %s\n%s\n-/\n" % (
                 skip[k], text.replace("/-", "/ -").replace("-/", "- /").replace("\ntheorem ", "\nopen_obligation ").replace("set_option", "-- set_option")))
@@ -1044,7 +1088,7 @@ def gen_lean(ob, ns, skip=()):
         t = t[t.index("open Bee2V.Gen.C07.%s\n" % ns) + len("open Bee2V.Gen.C07.%s\n" % ns):]
         t = t[:t.rindex("end Bee2V.Gen.C07")]
         body.append(t)
-    head = "import Bee2V.Gen.C07Deep%s\nimport Bee2V.C07.Tactic\n\nnamespace Bee2V.Gen.C07.%s.Use\nopen Bee2V.Gen.C07.%s\n" % (ns, ns, ns)
+    head = "import Bee2V.Gen.C07Deep%s\nimport Bee2V.C07.Mono\n\nnamespace Bee2V.Gen.C07.%s.Use\nopen Bee2V.Gen.C07.%s\n" % (ns, ns, ns)
     return head + "\n".join(body) + "\nend Bee2V.Gen.C07.%s.Use\n" % ns, names, opened
 
 
